@@ -342,14 +342,14 @@ def strategy():
 
 def shard(ctx):
     thorough = ctx.tier == "thorough"
-    drive(ctx, direct_case(), lambda c: direct(ctx, c), 6000 if thorough else 80, tag="direct")
-    drive(ctx, strategy(), lambda c: e2e(ctx, c[0], c[1]), 300 if thorough else 12, shrink=False, tag="e2e")
+    drive(ctx, direct_case(), lambda c: direct(ctx, c), 6000 if thorough else 300, tag="direct")
+    drive(ctx, strategy(), lambda c: e2e(ctx, c[0], c[1]), 300 if thorough else 30, shrink=False, tag="e2e")
     hz = [120, 120, 108, 96, 72, 48]
     mult = st.sampled_from([0.5, 2.0, 0.0]) | st.floats(0, 10).map(lambda x: round(x, 4))
     gm = st.one_of(st.tuples(gen.country(small_bias=True), gen.options("country", horizons=hz), mult),
                    st.tuples(gen.country(small_bias=True), gen.options("country", horizons=hz), mult),
                    st.tuples(st.just("WOR"), gen.options("global", horizons=hz), mult))
-    drive(ctx, gm, lambda c: grass_multiplier(ctx, c), 200 if thorough else 8, shrink=False, tag="grassmult")
+    drive(ctx, gm, lambda c: grass_multiplier(ctx, c), 200 if thorough else 16, shrink=False, tag="grassmult")
     if thorough:
         for i, iso in enumerate(model.iso3_list()):
             if i % ctx.nshards != ctx.shard:
